@@ -10,7 +10,7 @@ META = {
     "level": "model_checking",
     "text": "TLC model checks the writer's offset bookkeeping (LayoutWriter.tla) against Layout!WellFormedFile for all small object "
             "sets, write orders and {xref table, xref stream} x {object streams on/off}; outputs of real pdfcpu writing operations "
-            "(optimize, rotate, watermark, keywords, attachments, merge, trim, bookmarks, annotations full and incremental, n-up, "
+            "(optimize, rotate, watermark, keywords, attachments, merge, trim, bookmarks, annotations full and incremental, n-up, two writes of one context under different xref/object stream settings, "
             "insert, properties, encrypt) on corpus and generated files under every writer configuration (xref stream, object "
             "stream, LF/CR/CRLF, encryption) are parsed by an independent strict parser and every layout record is judged by TLC "
             "with the same WellFormedFile.",
@@ -64,7 +64,7 @@ def run(ctx):
 
         # ---- binding: real outputs -> strict parser -> records -> TLC
         rec = os.path.join(d, "records.ndjson")
-        limit = 110 if ctx.quick else 4200
+        limit = 175 if ctx.quick else 4200
         p = vlib.sh([binp, "layout", "--out", rec, "--tier", ctx.tier, "--seed", str(ctx.seed), "--work", os.path.join(d, "w"),
                      "--limit", str(limit)], timeout=3000)
         summ = _summary(p)
@@ -127,6 +127,12 @@ def run(ctx):
             raise vlib.HarnessError("judged %d of %d records" % (judged, summ["records"]))
 
         seen = {}
+        fpath = rec + ".failed"
+        if os.path.exists(fpath):
+            for fl in vlib.read_ndjson(fpath):
+                # the same context was written successfully just before: the writer left it in a state it cannot write again
+                seen.setdefault("rewrite-failed", []).append(fl["id"])
+                byid[fl["id"]] = {"op": "rewrite", "cfg": {}, "input": "", "diag": [fl["err"][:200]], "nsecs": 1, "size": -1, "objects": -1}
         for df in defects:
             info = byid[df["id"]]
             for name in sorted(df["defects"]):
@@ -143,7 +149,7 @@ def run(ctx):
                rule="one case = one output file of a real operation (op x input x writer configuration; product space of %d, %s), "
                     "projected by the strict parser and judged by TLC; non-trivial = distinct outputs that have compressed "
                     "entries, free entries, several xref sections or encryption" % (
-                        summ["space"], "seeded sample with every (configuration, op) pair covered" if summ["jobs"] < summ["space"] else "all of it"),
+                        summ["space"], "seeded sample: every (generated input, operation) pair with rotated configurations, then random fill" if summ["jobs"] < summ["space"] else "all of it"),
                exhaustive=False, generator=summ, defects_found={k: len(v) for k, v in seen.items()})
         ev.assume("the strict parser harness/lib/strictpdf reports faithfully what is at each stated offset (trusted projection)",
                   "object stream members of encrypted outputs are not decrypted: only container, /N and index are checked",
